@@ -1034,7 +1034,7 @@ def bs_european_binary_gamma(
     spot = s.exp() * strike
 
     d2_tensor = d2(s, t, v)
-    w = volatility * time_to_maturity.square()
+    w = volatility * time_to_maturity.sqrt()
 
     gamma = -npdf(d2_tensor).div(w * spot.square()) * (1 + d2_tensor.div(w))
 
